@@ -1,16 +1,18 @@
-(* C19: the three ways in which the faithful model steps outside the monitor, as a predicate on
-   (model state, next input).  Used as the exact exclusion of the _partial theorems, and by the
-   driver to attribute a spec failure on an implementation trace to a listed cause. *)
+(* C19: the ways in which the faithful model steps outside the monitor, as a predicate on
+   (model state, next input).  [offending] is about the CURRENT code (one cause left) and is the
+   exact exclusion of the _partial theorems; the driver uses it to attribute a spec failure on an
+   implementation trace to the listed cause.  [offending_v0] is about the code as found
+   (ModelV0.v): three causes, two of them repaired since. *)
 From Coq Require Import List NArith Bool.
-From Gv Require Import C19.Model.
+From Gv Require Import C19.Model C19.ModelV0.
 Import ListNotations.
 Open Scope N_scope.
 
 Inductive cause :=
-| KStopUnknown       (* client complete/stop for an id with no running operation: StopSubscription
-                        emits "complete" regardless *)
-| KEmitAfterCancel   (* an operation goroutine whose context is already cancelled (the server has
-                        sent its terminal message, or dropped it) still emits *)
+| KStopUnknown       (* REPAIRED (fix 1).  client complete/stop for an id with no running operation:
+                        StopSubscription emitted "complete" regardless *)
+| KEmitAfterCancel   (* REPAIRED (fix 2).  an operation goroutine whose context is already cancelled
+                        (the server has sent its terminal message, or dropped it) still emitted *)
 | KSubErrorGoesOn.   (* Execute of a subscription returns an error: "error" is sent but the
                         subscription stays registered and keeps executing *)
 
@@ -20,7 +22,34 @@ Definition cause_eqb (a b : cause) : bool :=
   | _, _ => false
   end.
 
+(* ---- current code *)
 Definition offending (pr : proto) (st : state) (inp : input) : option cause :=
+  if s_closed st then None
+  else match inp with
+  | ERet t RErr _ =>
+    match find_op t (s_ops st) with
+    | Some o => match o_kind o with
+                | KSub => if o_cancelled o then None else Some KSubErrorGoesOn
+                | KQuery => None
+                end
+    | None => None
+    end
+  | _ => None
+  end.
+
+Fixpoint causes_from (pr : proto) (st : state) (ins : list input) : list cause :=
+  match ins with
+  | [] => []
+  | m :: r =>
+    match offending pr st m with
+    | Some k => k :: causes_from pr (fst (step pr st m)) r
+    | None => causes_from pr (fst (step pr st m)) r
+    end
+  end.
+Definition causes_of (pr : proto) (ins : list input) : list cause := causes_from pr (init_state pr) ins.
+
+(* ---- the code as found *)
+Definition offending_v0 (pr : proto) (st : state) (inp : input) : option cause :=
   if s_closed st then None
   else match inp with
   | CComplete i => match pr with TWS => if active st i then None else Some KStopUnknown | GWS => None end
@@ -47,14 +76,13 @@ Definition offending (pr : proto) (st : state) (inp : input) : option cause :=
   | _ => None
   end.
 
-(* the causes met along a run, in order *)
-Fixpoint causes_from (pr : proto) (st : state) (ins : list input) : list cause :=
+Fixpoint causes_from_v0 (pr : proto) (st : state) (ins : list input) : list cause :=
   match ins with
   | [] => []
   | m :: r =>
-    match offending pr st m with
-    | Some k => k :: causes_from pr (fst (step pr st m)) r
-    | None => causes_from pr (fst (step pr st m)) r
+    match offending_v0 pr st m with
+    | Some k => k :: causes_from_v0 pr (fst (step_v0 pr st m)) r
+    | None => causes_from_v0 pr (fst (step_v0 pr st m)) r
     end
   end.
-Definition causes_of (pr : proto) (ins : list input) : list cause := causes_from pr (init_state pr) ins.
+Definition causes_of_v0 (pr : proto) (ins : list input) : list cause := causes_from_v0 pr (init_state pr) ins.
